@@ -132,3 +132,65 @@ Definition dgram_seq (buf : list N) : N :=
   | [] => 0
   | p :: rest => le_val (takeN (p / 16) rest)
   end.
+
+(* ------------------------------------------------------------------ *)
+(* additions for Proofs/NAuthP.v (authenticity of the server)          *)
+(* ------------------------------------------------------------------ *)
+
+(* the tag of the datagram verifies under key, for the nonce and the associated data that decode derives
+   from the datagram's own header (every structural test that precedes the cipher passes).  Weaker than
+   opens_sealed: the plaintext need not parse.  Same as dgram_auth of Proofs/NPacketP.v. *)
+Definition tag_verifies (key : list N) (protocol : N) (buf : list N) : Prop :=
+  match buf with
+  | [] => False
+  | prefix :: rest =>
+      (2 + NC_MAC_BYTES <= len (prefix :: rest) /\ 1 <= prefix mod 16 <= 6 /\ prefix / 16 <= 8 /\
+       prefix / 16 <= len rest /\ NC_MAC_BYTES <= len (dropN (prefix / 16) rest)) /\
+      aead_open key (nonce_of (dgram_seq buf)) (packet_aad prefix protocol) (dropN (prefix / 16) rest) <> None
+  end.
+
+(* authentic_for with "the tag verifies" in place of "opens": what really moves the server *)
+Definition tag_authentic_for (s : nserver) (a : addr) (buf : list N) : Prop :=
+  (exists slot c, find_by_addr s a = Some (slot, c) /\ tag_verifies (nc_recv_key c) (ns_protocol s) buf) \/
+  (find_by_addr s a = None /\ exists pc, pend_find a (ns_pending s) = Some pc /\ tag_verifies (nc_recv_key pc) (ns_protocol s) buf).
+
+(* the five checks of handle_request that precede any state change, on the fields of a request packet *)
+Definition request_checks (s : nserver) (v : list N) (protocol expire : N) (xn data : list N) (t : private_token) : Prop :=
+  v = NC_VERSION_INFO /\ protocol = ns_protocol s /\ as_secs (ns_now s) < expire /\
+  private_decode data (ns_protocol s) expire xn (ns_connect_key s) = Ok t /\
+  (ns_secure s = true -> in_host_list s t = true).
+
+(* the sealed private part carried by a connection request datagram, and its tag (the key of the
+   connect token entries) *)
+Definition request_data (buf : list N) : list N :=
+  match read_packet 0 (tl buf) with
+  | Ok (PRequest _ _ _ _ data) => data
+  | _ => []
+  end.
+Definition mac_of (buf : list N) : list N := dropN (NC_PRIVATE_BYTES - NC_MAC_BYTES) (request_data buf).
+
+(* the LAST entry of the connect token table with this tag: the one find_or_add_entry looks at *)
+Fixpoint last_match (es : list (option token_entry)) (mac : list N) : option token_entry :=
+  match es with
+  | [] => None
+  | Some e :: t =>
+      match last_match t mac with
+      | Some m => Some m
+      | None => if bytes_eqb (te_mac e) mac then Some e else None
+      end
+  | None :: t => last_match t mac
+  end.
+
+(* what a pending (or connected) entry owes to the private token of the request that created it *)
+Definition conn_of_token (c : nconn) (a : addr) (t : private_token) (expire : N) : Prop :=
+  nc_id c = pt_client_id t /\ nc_user c = pt_user t /\ nc_recv_key c = pt_c2s t /\ nc_send_key c = pt_s2c t /\
+  nc_expire c = expire /\ nc_addr c = a /\ nc_timeout c = pt_timeout t.
+
+(* the k-th call of ops is NSProcess a buf, made in state s1 = the state after the first k calls *)
+Definition call_at (s0 : nserver) (ops : list nsop) (k : nat) (s1 : nserver) (a : addr) (buf : list N) : Prop :=
+  nth_error ops k = Some (NSProcess a buf) /\ exists outs1, nsrun s0 (firstn k ops) = Ok (s1, outs1).
+
+(* every pending entry was created by a validated request from its address, earlier in the run *)
+Definition pending_valid (s0 : nserver) (ops : list nsop) (s : nserver) : Prop :=
+  forall a pc, In (a, pc) (ns_pending s) ->
+    exists k s1 buf0 t ex, call_at s0 ops k s1 a buf0 /\ request_validates s1 buf0 t ex /\ conn_of_token pc a t ex.
